@@ -46,7 +46,7 @@ var c01Fns = []*c01Fn{
 	{Name: "fBytes", Dirs: "io"}, {Name: "fUBytes", Dirs: "io"}, {Name: "fVecInt", Dirs: "io"}, {Name: "fVecStr", Dirs: "io"},
 	{Name: "fVecVec", Dirs: "io"}, {Name: "fMapSS", Dirs: "io"}, {Name: "fMapIV", Dirs: "io"}, {Name: "fItem", Dirs: "io"},
 	{Name: "fBig", Dirs: "io"}, {Name: "fVecItem", Dirs: "io"}, {Name: "fMapItem", Dirs: "io"},
-	{Name: "mixed", Dirs: "ioioioioi"}, {Name: "many", Dirs: "iiiiiiiiiiiiiiiioooooo"},
+	{Name: "deep", Dirs: "oi"}, {Name: "mixed", Dirs: "ioioioioi"}, {Name: "many", Dirs: "iiiiiiiiiiiiiiiioooooo"},
 }
 var c01FnByName = map[string]*c01Fn{}
 var c01FnsInit bool
@@ -376,6 +376,10 @@ func (c01Imp) FMapItem(ctx context.Context, a map[string]e2e.Item, o *map[string
 	err = c01Serve(ctx, "fMapItem", ifs{a}, ifs{o}, &r)
 	return
 }
+func (c01Imp) Deep(ctx context.Context, o *e2e.Node, a int32) (r int32, err error) {
+	err = c01Serve(ctx, "deep", ifs{a}, ifs{o}, &r)
+	return
+}
 func (c01Imp) Mixed(ctx context.Context, a int32, o1 *string, b string, o2 *[]int32, c int64, o3 *e2e.Item, d *e2e.Item, o4 *map[string]string, e bool) (r int32, err error) {
 	err = c01Serve(ctx, "mixed", ifs{a, b, c, d, e}, ifs{o1, o2, o3, o4}, &r)
 	return
@@ -663,6 +667,68 @@ func c01StartServer(dir string) (proxy *e2e.E2E, err error) {
 	return nil, errors.New("unreachable")
 }
 
+// c01Chain is a Node nested n structs deep: on the wire struct > list > struct > ... = 2n-1 nesting levels.
+func c01Chain(n int) e2e.Node {
+	nd := e2e.Node{V: int32(n)}
+	for i := n - 1; i >= 1; i-- {
+		nd = e2e.Node{V: int32(i), Kids: []e2e.Node{nd}}
+	}
+	return nd
+}
+
+// c01WireDepth is the nesting depth of the encoding of v as a required member (what skipField has to descend):
+// structs, non-empty vectors and maps count one level each; members the encoder omits do not count.
+func c01WireDepth(v reflect.Value) int {
+	switch v.Kind() {
+	case reflect.Struct:
+		d := 0
+		for _, f := range fieldsOf(v.Type()) {
+			fv := v.Field(f.Idx)
+			if !f.Req && (fv.Kind() == reflect.Slice || fv.Kind() == reflect.Map) && fv.Len() == 0 {
+				continue
+			}
+			if x := c01WireDepth(fv); x > d {
+				d = x
+			}
+		}
+		return 1 + d
+	case reflect.Slice, reflect.Array:
+		if k := v.Type().Elem().Kind(); k == reflect.Int8 || k == reflect.Uint8 {
+			return 0
+		}
+		d := 0
+		for i := 0; i < v.Len(); i++ {
+			if x := c01WireDepth(v.Index(i)); x > d {
+				d = x
+			}
+		}
+		return 1 + d
+	case reflect.Map:
+		d := 0
+		for _, mk := range v.MapKeys() {
+			if x := c01WireDepth(mk); x > d {
+				d = x
+			}
+			if x := c01WireDepth(v.MapIndex(mk)); x > d {
+				d = x
+			}
+		}
+		return 1 + d
+	}
+	return 0
+}
+
+// c01Unskippable: the dispatcher cannot pass over one of the caller's out variables (known finding; the call fails
+// before the implementation is reached)
+func c01Unskippable(p *c01Prepared) bool {
+	for i := range p.f.argT {
+		if p.f.Dirs[i] == 'o' && strings.ContainsRune(p.f.Dirs[i:], 'i') && c01WireDepth(p.vals[i]) > codec.VerifMaxSkipDepth() {
+			return true
+		}
+	}
+	return false
+}
+
 // ---------- one call ----------
 type c01Prepared struct {
 	f      *c01Fn
@@ -688,6 +754,9 @@ func c01Prepare(proxy *e2e.E2E, k *c01Call) *c01Prepared {
 		v := reflect.New(t) // pointer to a fresh variable
 		if f.Dirs[i] == 'i' || k.Prior {
 			fillRandom(rng, v.Elem(), 3)
+		}
+		if f.Dirs[i] == 'o' && k.DeepPrior > 0 && t == reflect.TypeOf(e2e.Node{}) {
+			v.Elem().Set(reflect.ValueOf(c01Chain(k.DeepPrior)))
 		}
 		cp := reflect.New(t)
 		cp.Elem().Set(v.Elem())
@@ -825,6 +894,14 @@ func c01Judge(cfg c01Cfg, k *c01Call, p *c01Prepared, o c01Outcome) {
 		code := tars.GetErrorCode(o.err)
 		k.Res = fmt.Sprintf("(CErr %s %s false)", coqZ(int64(code)), c01Str(o.err.Error()))
 		if p.plan.err == nil {
+			// the request carries the caller's out variables; the dispatcher passes over those in front of an in argument
+			// with skipField, which refuses nesting deeper than maxSkipDepth
+			for i := range p.f.argT {
+				if p.f.Dirs[i] == 'o' && strings.ContainsRune(p.f.Dirs[i:], 'i') && c01WireDepth(p.vals[i]) > codec.VerifMaxSkipDepth() {
+					fail("spurious-error", "prefilled-out-argument-deeper-than-skip-limit", "%s: the implementation would succeed but the caller got error code %d %q: out variable %d holds a value nested %d levels deep (skip limit %d) and is encoded in front of an in argument", k.Fn, code, o.err.Error(), i, c01WireDepth(p.vals[i]), codec.VerifMaxSkipDepth())
+					return
+				}
+			}
 			fail("spurious-error", cfg.String(), "%s: the implementation succeeded but the caller got error code %d %q", k.Fn, code, o.err.Error())
 			return
 		}
@@ -1085,6 +1162,9 @@ func c01ChildMain(inPath, outPath string) {
 		want := map[string]int{}
 		wantOneWay := map[string]bool{}
 		for i, p := range preps {
+			if c01Unskippable(p) {
+				continue
+			}
 			want[p.key]++
 			if cs.Calls[i].OneWay {
 				wantOneWay[p.key] = true
@@ -1166,7 +1246,7 @@ func c01ChildMain(inPath, outPath string) {
 				}
 			}
 			k.Events = "(Some [" + strings.Join(gotCoq, "; ") + "])"
-			exp := c01ExpectedFilterEvents(cfg, true)
+			exp := c01ExpectedFilterEvents(cfg, !c01Unskippable(preps[0]))
 			if k.OneWay {
 				// a one-way call returns without waiting for the server: only the order within each side is determined
 				got = append(c01SideEvents(got, true), c01SideEvents(got, false)...)
